@@ -140,6 +140,15 @@ CLAIMED = {
         "DESIGN.md §4 C10",
         "exploration",
     ),
+    "C11": (
+        "Hypothesis-generated JSON documents x paths x syntaxes x casts x wrappers x operator contexts vs Python navigation; constructors and FLATTEN vs Python dict/list",
+        "Recursive JSON documents with paths generated against them (present / missing / wrong kind) are accessed through every syntax, "
+        "cast, wrapper and surrounding operator context and compared with navigating the same document in Python; OBJECT/ARRAY "
+        "constructors and LATERAL FLATTEN are compared with Python dict/list semantics. Exploration.",
+        "JSON text is compared parsed; a JSON null member may surface as NULL or 'null'; shapes with listed findings (chained brackets, odd keys, bracket-last text conversion) are classified coarsely.",
+        "DESIGN.md §4 C11",
+        "exploration",
+    ),
 }
 
 NOT_YET = {}
